@@ -493,6 +493,10 @@ func superviseShard(id string, cfg propCfg, v variant, bin, tier string, seed ui
 		tail := tailFile(errFile, 6000)
 		res.crashes++
 		switch {
+		case verdict == "cpu-hang" && busyOutsideSDK(headFile(errFile, 400000)):
+			// the goroutines that were computing when the worker was stopped are all in the harness' own code (a
+			// generator that takes its time, for instance): that says nothing about the SDK
+			res.inconclusive = append(res.inconclusive, fmt.Sprintf("variant=%s idx=%d key=%s: %.0fs CPU on one case, spent in the harness' own code, not in the SDK: %s", v.Name, idx, key, cfg.CPUHang, busyFrames(headFile(errFile, 400000))))
 		case verdict == "cpu-hang":
 			res.viols = append(res.viols, viol{Key: "hang:" + key, What: fmt.Sprintf("no return after %.0fs CPU on one case (idx %d, %s)", cfg.CPUHang, idx, key),
 				Idx: idx, Shard: shard, Variant: v.Name, Witness: map[string]any{"goroutines": tail}})
@@ -884,6 +888,64 @@ func fatalFrame(dump string) string {
 		}
 	}
 	return ""
+}
+
+// runningBlocks returns the goroutine blocks of a dump (SIGQUIT, GOTRACEBACK=all) whose goroutine was running or
+// runnable, runtime-internal workers excluded.
+func runningBlocks(dump string) []string {
+	var out []string
+	for _, b := range strings.Split(dump, "\n\n") {
+		b = strings.TrimLeft(b, "\n")
+		if !strings.HasPrefix(b, "goroutine ") {
+			continue
+		}
+		hdr := b
+		if i := strings.IndexByte(b, '\n'); i > 0 {
+			hdr = b[:i]
+		}
+		if !(strings.Contains(hdr, "[running") || strings.Contains(hdr, "[runnable")) {
+			continue
+		}
+		if strings.Contains(b, "runtime.gcBgMarkWorker") || strings.Contains(b, "runtime.bgsweep") || strings.Contains(b, "runtime.bgscavenge") || strings.Contains(b, "os/signal.") {
+			continue
+		}
+		out = append(out, b)
+	}
+	return out
+}
+
+// busyOutsideSDK: the dump shows at least one computing goroutine, and none of them has a frame of the SDK.
+func busyOutsideSDK(dump string) bool {
+	blocks := runningBlocks(dump)
+	if len(blocks) == 0 {
+		return false
+	}
+	for _, b := range blocks {
+		if strings.Contains(b, "go.flow.arcalot.io/pluginsdk/") {
+			return false
+		}
+	}
+	return true
+}
+
+// busyFrames: the top frames of the computing goroutines, for the inconclusive note.
+func busyFrames(dump string) string {
+	var out []string
+	for _, b := range runningBlocks(dump) {
+		n := 0
+		for _, ln := range strings.Split(b, "\n")[1:] {
+			if ln != "" && !strings.HasPrefix(ln, "\t") && !strings.HasPrefix(ln, "runtime.") {
+				if k := strings.LastIndexByte(ln, '('); k > 0 {
+					ln = ln[:k]
+				}
+				out = append(out, ln)
+				if n++; n >= 3 {
+					break
+				}
+			}
+		}
+	}
+	return strings.Join(out, " < ")
 }
 
 // fatalSite classifies a fatal crash from the head of the goroutine dump.
